@@ -714,16 +714,32 @@ example : (exX4.conn 1).authenticated = true ∧ (exX4.conn 1).nick = some (str 
 
 -- a rename of a channel member (hand-made world: `a` is operator of `#c`): no `unwrap` fails, the
 -- member map and the rank list are re-keyed
+def Reg.exU6 : User :=
+  { hostname := str "h"
+    name := str "a"
+    realname := str "r"
+    source := str "a!~a@h"
+    modes := {}
+    channels := [str "#c"]
+    history := ⟨str "a", str "h", str "r"⟩
+    owner := 1 }
+def Reg.exC6 : Conn :=
+  { id := 1
+    hostname := str "h"
+    nick := some (str "a")
+    name := some (str "a")
+    source := str "a!~a@h"
+    authenticated := true
+    hasSender := false
+    hasQuitSender := false
+    hasPingSender := false }
 def Reg.exW6 : World :=
-  { users := [(str "a",
-      { hostname := str "h", name := str "a", realname := str "r", source := str "a!~a@h", modes := {},
-        channels := [str "#c"], history := ⟨str "a", str "h", str "r"⟩, owner := 1 })]
-    channels := [(str "#c", { users := [(str "a", { operator := true })],
-                             modes := { operators := [str "a"] } })]
-    conns := [{ id := 1, hostname := str "h", nick := some (str "a"), name := some (str "a"),
-                source := str "a!~a@h", authenticated := true, hasSender := false,
-                hasQuitSender := false, hasPingSender := false }]
-    connsCount := 1, maxUsers := 1 }
+  { users := [(str "a", exU6)]
+    channels := [(str "#c", { users := [(str "a", { operator := true })]
+                              modes := { operators := [str "a"] } })]
+    conns := [exC6]
+    connsCount := 1
+    maxUsers := 1 }
 example :
     let w := (processNick {} 1 (str "b") (exMsg "b") { w := exW6 }).w
     w.panicked = none ∧ Map.keys w.users = [str "b"] ∧
